@@ -77,3 +77,10 @@ package mysql
 //@ func (*mysql.Node).SetReadOnlyWithForce
 //@   flags partial
 //@   assert_at return#* C08.force_error_passthrough [C08]: result != nil ==> reached("setReadonlyWithTimeout", 2) && result == resultof("setReadonlyWithTimeout", 2)
+
+// ---- C20: structural invariants of the handles (assumed at entry in the sweep; see /verif/govc/typeinv.go) -----
+//@ define nodeInv(n *Node) = n.config != nil && n.logger != nil
+//@ define registryInv(c *Cluster) = c.haNodes != nil && c.cascadeNodes != nil && (forall k string :: has(c.haNodes, k) ==> c.haNodes[k] != nil && c.haNodes[k].host == k && nodeInv(c.haNodes[k])) && (forall k string :: has(c.cascadeNodes, k) ==> c.cascadeNodes[k] != nil && c.cascadeNodes[k].host == k && nodeInv(c.cascadeNodes[k]))
+//@ define clusterOK(c *Cluster) = c.config != nil && c.logger != nil && c.dcs != nil && c.local != nil && nodeInv(c.local) && registryInv(c)
+//@ typeinv *mysql.Node nodeInv init mysql.NewNode
+//@ typeinv *mysql.Cluster clusterOK init mysql.NewCluster, (*mysql.Cluster).registerLocalNode, (*mysql.Cluster).VerifSetLocal
